@@ -89,6 +89,9 @@ class C10(Prop):
             'fire_period': st.sampled_from(['0', '0', '10']),
             'hits': st.one_of(st.lists(hit, min_size=1, max_size=8), st.lists(hit, min_size=4, max_size=8)),
             'kind': st.sampled_from(['snapshot', 'snapshot', 'log', 'metric', 'span']),
+            # another tracepoint on the same line, evaluated first, whose metric expression has the same text as the
+            # condition / first watch of the tracepoint under test
+            'pre_metric': st.sampled_from([None, None, 'cond', 'watch']),
             'watches': st.one_of(st.lists(st.sampled_from(WATCHES), max_size=3, unique=True),
                                 st.lists(st.sampled_from(AGENT_ONLY + ['G', 'x + G']), min_size=1, max_size=3, unique=True)),
         })
@@ -112,7 +115,14 @@ class C10(Prop):
         watches = list(recipe['watches']) if kind == 'snapshot' else []
         trig = build_trigger('tp', PATH, LINE, args, watches, metrics)
         logger, mproc, sproc = lab.RecLogger(), lab.RecMetricProcessor(), lab.RecSpanProcessor()
-        handler, cfg, push = lab.make_handler([trig], plugins=[logger, mproc, sproc])
+        trigs = [trig]
+        pm = recipe.get('pre_metric')
+        pm_expr = (cond if pm == 'cond' else (watches[0] if (pm == 'watch' and watches) else None))
+        if pm_expr and pm_expr.strip() and kind != 'metric':
+            out.cls('same_expression_in_an_earlier_metric')
+            trigs = [build_trigger('tp-pre', PATH, LINE, {'fire_count': '-1', 'fire_period': '0', 'snapshot': 'no_collect'},
+                                   [], [MetricDefinition('pre', 'counter', [], pm_expr)]), trig]
+        handler, cfg, push = lab.make_handler(trigs, plugins=[logger, mproc, sproc])
         fc = int(recipe['fire_count'])
         period_ns = int(recipe['fire_period']) * 1_000_000
         count, last = 0, None
